@@ -30,12 +30,17 @@ def pathsL : List Dec → List (Leaf × List Step)
   | t :: ts => paths t ++ pathsL ts
 end
 
-/-- the only change each decorator makes: tags `(t ∪ add) \ discard` (`None` when that is empty), a missing
-timestamp filled with the current time, the route code prefixed -/
+/-- the only change each decorator makes: tags `(t ∪ add) \ discard` - a set, possibly empty, whenever the event supplied a
+set or something is added; an event that says nothing about tags (`None`) and gets nothing added keeps saying nothing
+(so a tagger with nothing to do is the identity, and `None` = "no information" is never confused with the empty set =
+"no tags now", which consumers treat differently) -, a missing timestamp filled with the current time, the route code
+prefixed -/
 def applyStep (e : Event) : Step → Event
   | .tag add discard =>
     let s := norm (((e.tags.getD []) ++ add).filter fun x => !discard.contains x)
-    { e with tags := if s.isEmpty then none else some s }
+    { e with tags := match e.tags with
+                     | none => if s.isEmpty then none else some s
+                     | some _ => some s }
   | .stamp => { e with timestamp := match e.timestamp with | none => some .now | some t => some t }
   | .pre code => { e with route := match e.route with | none => some code | some r => some (code ++ '/' :: r) }
 
